@@ -24,7 +24,11 @@ import (
 type c02Case struct {
 	FEN   string   `json:"fen"`
 	Moves []string `json:"moves"`
-	Via   string   `json:"via"` // "api" or "uci"
+	Via   string   `json:"via"` // "api", "uci" or "uci-session"
+	// Before: the move list of the `position startpos` command sent to the same driver just before (uci-session)
+	Before []string `json:"before,omitempty"`
+	// Command: the exact text of the position command (uci; white space between tokens varies)
+	Command string `json:"command,omitempty"`
 }
 
 // nullSearch is a Search for drivers that never search.
@@ -98,7 +102,18 @@ func c02Replay(class string, raw json.RawMessage) (bool, string) {
 	want := c02Expect(p, ms)
 	var got string
 	if c.Via == "uci" {
-		out, _ := runDriver("position fen "+c.FEN+" moves "+strings.Join(c.Moves, " ")+"\nfen\n", nullSearch{})
+		cmd := "position fen " + c.FEN + " moves " + strings.Join(c.Moves, " ")
+		if c.Command != "" {
+			cmd = c.Command
+		}
+		out, _ := runDriver(cmd+"\nfen\n", nullSearch{})
+		got = strings.TrimSpace(out)
+	} else if c.Via == "uci-session" {
+		first := "position startpos"
+		if len(c.Before) > 0 && c.Before[0] != "(first command)" {
+			first += " moves " + strings.Join(c.Before, " ")
+		}
+		out, _ := runDriver(first+"\nposition startpos moves "+strings.Join(c.Moves, " ")+"\nfen\n", nullSearch{})
 		got = strings.TrimSpace(out)
 	} else {
 		b := eng.Load(&p)
@@ -181,6 +196,7 @@ func runC02(r *ev.Run) {
 		var script strings.Builder
 		var expect []string
 		var paths [][]string
+		var cmds []string
 		w := &universe.Walker{}
 		w.Visit = func(w *universe.Walker, p *refchess.Pos, left int) bool {
 			u2nodes.Add(1)
@@ -188,13 +204,23 @@ func runC02(r *ev.Run) {
 				judge(w.B, p, func() c02Case { return c02Case{FEN: root.FEN, Moves: w.PathStrings(), Via: "api"} })
 				if len(w.Path) <= uciDepth {
 					ps := w.PathStrings()
-					fmt.Fprintf(&script, "position fen %s moves %s\nfen\n", root.FEN, strings.Join(ps, " "))
+					// white space between the tokens of a command is arbitrary: single blanks, doubled blanks, tabs in rotation
+					cmd := fmt.Sprintf("position fen %s moves %s", root.FEN, strings.Join(ps, " "))
+					switch len(expect) % 3 {
+					case 1:
+						cmd = "  " + strings.ReplaceAll(cmd, " ", "  ") + " "
+					case 2:
+						cmd = strings.ReplaceAll(cmd, " ", "\t")
+					}
+					fmt.Fprintf(&script, "%s\nfen\n", cmd)
+					cmds = append(cmds, cmd)
 					n := p.Normalized()
 					expect = append(expect, n.FEN())
 					paths = append(paths, ps)
 					if root.FEN == StartPosFEN {
 						// the other way of setting up a game
 						fmt.Fprintf(&script, "position startpos moves %s\nfen\n", strings.Join(ps, " "))
+						cmds = append(cmds, "position startpos moves "+strings.Join(ps, " "))
 						expect = append(expect, n.FEN())
 						paths = append(paths, ps)
 					}
@@ -217,7 +243,7 @@ func runC02(r *ev.Run) {
 			uciChains.Add(1)
 			if lines[i] != expect[i] {
 				p := refchess.MustFEN(expect[i])
-				r.Fail("uci/"+c02Classify(lines[i], expect[i], &p), c02Case{FEN: root.FEN, Moves: paths[i], Via: "uci"},
+				r.Fail("uci/"+c02Classify(lines[i], expect[i], &p), c02Case{FEN: root.FEN, Moves: paths[i], Via: "uci", Command: cmds[i]},
 					"position fen %s moves %v: driver %q, rules %q", root.FEN, paths[i], lines[i], expect[i])
 			}
 		}
@@ -238,6 +264,10 @@ func runC02(r *ev.Run) {
 
 	// --- counter edges: long reversible lines (clock beyond 100, full-move numbers)
 	c02CounterEdges(r, judge)
+
+	// --- sessions: one driver receives many `position startpos moves ...` commands in a row (growing lists, lists of equal
+	// length that deviate earlier, shorter lists), as a GUI does during a game, after a ponder miss or a take-back
+	r.Set("startpos_session_commands", c02Sessions(r))
 
 	// --- game histories of great length, through the API at every ply and through one `position startpos moves ...` line
 	r.Set("long_game_plies", c02LongGames(r, judge))
@@ -457,6 +487,72 @@ func c02LongGames(r *ev.Run, judge func(b *board.Board, child *refchess.Pos, mk 
 						"position startpos with %d moves in one line (%d bytes): driver %q, rules %q", len(played), 6*len(played), got, want)
 					return
 				}
+			}
+		}
+	})
+	return total.Load()
+}
+
+// c02Sessions: all move lists of length <= 2 from the start position (plus a third ply for a slice of them) are sent to ONE
+// driver as consecutive `position startpos moves ...` commands, in depth-first order, in reverse order and in an
+// order that alternates between distant lists; after each the driver's position must be the prescribed one.
+func c02Sessions(r *ev.Run) int64 {
+	start := refchess.MustFEN(StartPosFEN)
+	type item struct {
+		moves []string
+		fen   string
+	}
+	var items []item
+	var rec func(p *refchess.Pos, path []string, depth int)
+	rec = func(p *refchess.Pos, path []string, depth int) {
+		n := p.Normalized()
+		items = append(items, item{append([]string(nil), path...), n.FEN()})
+		if depth == 0 {
+			return
+		}
+		var buf [256]refchess.Move
+		for i, m := range p.LegalMoves(buf[:0]) {
+			if len(path) == 2 && i%5 != 0 {
+				continue
+			}
+			c := p.Make(m)
+			rec(&c, append(path, m.String()), depth-1)
+		}
+	}
+	rec(&start, nil, ev.Pick(r, 2, 3))
+	orders := [][]int{nil, nil, nil}
+	for i := range items {
+		orders[0] = append(orders[0], i)
+		orders[1] = append(orders[1], len(items)-1-i)
+		orders[2] = append(orders[2], (i*389)%len(items)) // 389 is coprime to any list length met here only by accident: duplicates are harmless
+	}
+	var total atomic.Int64
+	ev.Parallel(len(orders), func(worker, o int) {
+		var script strings.Builder
+		for _, ix := range orders[o] {
+			if len(items[ix].moves) == 0 {
+				script.WriteString("position startpos\nfen\n")
+			} else {
+				fmt.Fprintf(&script, "position startpos moves %s\nfen\n", strings.Join(items[ix].moves, " "))
+			}
+		}
+		out, _ := runDriver(script.String(), nullSearch{})
+		lines := strings.Split(strings.TrimRight(out, "\n"), "\n")
+		total.Add(int64(len(orders[o])))
+		for k, ix := range orders[o] {
+			got := ""
+			if k < len(lines) {
+				got = lines[k]
+			}
+			if got != items[ix].fen {
+				prev := []string{"(first command)"}
+				if k > 0 {
+					prev = items[orders[o][k-1]].moves
+				}
+				p := refchess.MustFEN(items[ix].fen)
+				r.Fail("uci/session/"+c02Classify(got, items[ix].fen, &p), c02Case{FEN: StartPosFEN, Moves: items[ix].moves, Via: "uci-session", Before: prev},
+					"`position startpos moves %v` sent after `position startpos moves %v` on the same driver: driver %q, rules %q", items[ix].moves, prev, got, items[ix].fen)
+				return
 			}
 		}
 	})
